@@ -154,3 +154,81 @@ Corollary sq_terminal_after_all ops s outs e :
 Proof.
   intros H Ht. apply sq_order in H. rewrite Ht in H. eexists. symmetry. exact H.
 Qed.
+
+(* ------------------------------------------------------------------ the bounded queue *)
+Lemma push_raw_ok s e : sq_ok s -> sq_ok (push_raw s e) /\ q_pushed (push_raw s e) = q_pushed s ++ [e]
+  /\ q_delivered (push_raw s e) = q_delivered s.
+Proof.
+  intros [Hi Ht]. split; [|split; reflexivity]. split; [|exact Ht].
+  unfold sq_inv, sq_contents, push_raw in *. cbn.
+  destruct (q_held s); rewrite <- Hi, <- ?app_assoc; cbn; rewrite <- ?app_assoc; reflexivity.
+Qed.
+
+Lemma fill_ok cap : forall fuel s w s' w',
+  sq_ok s -> fill fuel cap s w = (s', w') ->
+  sq_ok s' /\ q_pushed s' ++ w' = q_pushed s ++ w /\ q_delivered s' = q_delivered s.
+Proof.
+  induction fuel as [|f IH]; intros s w s' w' Hok H; cbn [fill] in H.
+  - inversion H; subst. auto.
+  - destruct w as [|e w]; [inversion H; subst; auto|].
+    destruct (Nat.ltb (length (q_entries s)) cap); [|inversion H; subst; auto].
+    destruct (push_raw_ok s e Hok) as (A & B & C).
+    destruct (IH _ _ _ _ A H) as (A2 & B2 & C2).
+    split; [exact A2|]. split; [rewrite B2, B, <- app_assoc; reflexivity|congruence].
+Qed.
+
+Definition b_ok (b : bsq) (pushed delivered : list entry) : Prop :=
+  sq_ok (b_q b) /\ q_pushed (b_q b) ++ b_wait b = pushed /\ q_delivered (b_q b) = delivered.
+
+Lemma b_fill_ok b pushed delivered : b_ok b pushed delivered -> b_ok (b_fill b) pushed delivered.
+Proof.
+  intros (A & B & C). unfold b_fill.
+  destruct (fill (length (b_wait b)) (b_cap b) (b_q b) (b_wait b)) as [s w] eqn:F.
+  destruct (fill_ok _ _ _ _ _ _ A F) as (A2 & B2 & C2). unfold b_ok. cbn. split; [exact A2|]. split; congruence.
+Qed.
+
+Lemma b_step_ok b op b' outs pushed delivered :
+  b_ok b pushed delivered -> b_step b op = (b', outs) ->
+  b_ok b' (pushed ++ pushed_of [op]) (delivered ++ concat (map out_entries outs)).
+Proof.
+  intros Hb H. destruct op as [e|k ok|]; cbn [b_step] in H.
+  - assert (H1 : b_ok (mkB (b_q b) (b_cap b) (b_wait b ++ [e])) (pushed ++ [e]) delivered).
+    { destruct Hb as (A & B & C). unfold b_ok. cbn. split; [exact A|]. split; [rewrite app_assoc, B; reflexivity|exact C]. }
+    apply b_fill_ok in H1. set (b1 := b_fill _) in *.
+    destruct (resume (b_q b1)) as [s2 o] eqn:R. inversion H; subst; clear H.
+    destruct H1 as (A & B & C). destruct (resume_ok _ _ _ A R) as (A2 & B2 & C2).
+    cbn [pushed_of flat_map app]. apply b_fill_ok. unfold b_ok. cbn. split; [exact A2|]. split; congruence.
+  - destruct (sq_step (b_q b) (OpSettle k ok)) as [s1 o] eqn:S. inversion H; subst; clear H.
+    destruct Hb as (A & B & C). destruct (sq_step_ok _ _ _ _ A S) as (A2 & B2 & C2).
+    cbn [pushed_of flat_map app] in *. rewrite app_nil_r in *. apply b_fill_ok. unfold b_ok. cbn.
+    split; [exact A2|]. split; congruence.
+  - destruct (sq_step (b_q b) OpPull) as [s1 o] eqn:S. inversion H; subst; clear H.
+    destruct Hb as (A & B & C). destruct (sq_step_ok _ _ _ _ A S) as (A2 & B2 & C2).
+    cbn [pushed_of flat_map app] in *. rewrite app_nil_r in *. apply b_fill_ok. unfold b_ok. cbn.
+    split; [exact A2|]. split; congruence.
+Qed.
+
+Lemma b_run_ok ops : forall b b' outs flags pushed delivered,
+  b_ok b pushed delivered -> b_run b ops = (b', outs, flags) ->
+  b_ok b' (pushed ++ pushed_of ops) (delivered ++ concat (map out_entries outs)).
+Proof.
+  induction ops as [|op ops IH]; intros b b' outs flags pushed delivered Hb H; cbn [b_run] in H.
+  - inversion H; subst. cbn. rewrite !app_nil_r. exact Hb.
+  - destruct (b_step b op) as [b1 o1] eqn:S1. destruct (b_run b1 ops) as [[b2 o2] f2] eqn:S2.
+    inversion H; subst; clear H.
+    pose proof (b_step_ok _ _ _ _ _ _ Hb S1) as H1. pose proof (IH _ _ _ _ _ _ H1 S2) as H2.
+    rewrite map_app, concat_app, app_assoc.
+    replace (pushed ++ pushed_of (op :: ops)) with ((pushed ++ pushed_of [op]) ++ pushed_of ops); [exact H2|].
+    cbn [pushed_of flat_map]. rewrite app_nil_r, <- app_assoc. reflexivity.
+Qed.
+
+(* the order law with back-pressure: for every capacity, delivered ++ terminal ++ held/queued ++
+   not yet put by the blocked producer = the pushed entries, in order *)
+Theorem bsq_order cap ops b outs flags :
+  b_run (bsq_init cap) ops = (b, outs, flags) ->
+  concat (map out_entries outs) ++ q_term (b_q b) ++ sq_contents (b_q b) ++ b_wait b = pushed_of ops.
+Proof.
+  intro H. assert (H0 : b_ok (bsq_init cap) [] []) by (split; [split; reflexivity|split; reflexivity]).
+  destruct (b_run_ok ops _ _ _ _ _ _ H0 H) as ([Hi _] & B & C). cbn [app] in B, C.
+  unfold sq_inv in Hi. rewrite <- B, <- Hi, C, <- !app_assoc. reflexivity.
+Qed.
